@@ -7,7 +7,7 @@ import streams as S
 
 ID = "C14"
 MODULE = "JmesVerif.Props.C14"
-THEOREMS = ["C14_ser_eq_serde_json", "C14_de_eq_serde_json", "C14_roundtrip"]
+THEOREMS = ["C14_ser_eq_serde_json", "C14_de_eq_serde_json", "C14_tuple_length_counterexample", "C14_lenient_extends_strict", "C14_roundtrip"]
 TRUSTED_BASE = [
     "Lean 4.33 kernel; axioms propext, Classical.choice, Quot.sound only",
     "Model/Serde.lean: hand-written model of variable.rs's Serializer and Deserializer-for-Variable against serde's standard and "
